@@ -388,6 +388,119 @@ func testFile(pkg string, ps []*partial) string {
 	return b.String()
 }
 
+var localMismatchRe = regexp.MustCompile(`C18LOCALMISMATCH (\S+) (.*)`)
+
+// localOrigin: `type accountView Account` with Account declared in the same package; exported and unexported fields.
+type localOrigin struct {
+	fields []lfield
+	omit   map[string]bool
+}
+
+type lfield struct{ name, typ, tag, val string }
+
+var lfieldPool = []lfield{
+	{"ID", "string", `json:"id"`, `"a1"`},
+	{"Labels", "map[string]string", `json:"labels,omitempty"`, `map[string]string{"k": "v"}`},
+	{"Scopes", "[]string", "", `[]string{"read", "write"}`},
+	{"CreatedAt", "time.Time", `json:"createdAt"`, `time.Unix(1700000000, 0).UTC()`},
+	{"Err", "error", "", `errors.New("boom")`},
+	{"Secret", "string", `json:"-"`, `"s3cret"`},
+	{"Count", "int", "", `42`},
+	{"revision", "int", "", `7`},
+	{"owner", "*string", "", `&c18owner`},
+	{"dirty", "map[string]bool", `k:"v"`, `map[string]bool{"ID": true}`},
+	{"history", "[]string", "", `[]string{"created", "renamed"}`},
+	{"_rev", "int64", "", `99`},
+	{"note", "string", "", `"n"`},
+}
+
+func genLocalOrigin(r *rand.Rand) *localOrigin {
+	lo := &localOrigin{omit: map[string]bool{}}
+	for _, i := range r.Perm(len(lfieldPool))[:4+r.Intn(len(lfieldPool)-3)] {
+		lo.fields = append(lo.fields, lfieldPool[i])
+	}
+	exported := 0
+	for _, f := range lo.fields {
+		if f.name[0] >= 'A' && f.name[0] <= 'Z' {
+			exported++
+		}
+	}
+	if exported == 0 {
+		lo.fields = append(lo.fields, lfieldPool[0])
+	}
+	for _, f := range lo.fields {
+		if r.Intn(4) == 0 {
+			lo.omit[f.name] = true
+		}
+	}
+	if len(lo.omit) == len(lo.fields) {
+		delete(lo.omit, lo.fields[0].name)
+	}
+	return lo
+}
+
+func (lo *localOrigin) source() string {
+	var b strings.Builder
+	b.WriteString("package localpart\n\nimport \"time\"\n\nvar _ time.Time\n\n// Account is the origin, declared in this very package.\ntype Account struct {\n")
+	for _, f := range lo.fields {
+		if f.tag != "" {
+			fmt.Fprintf(&b, "\t%s %s `%s`\n", f.name, f.typ, f.tag)
+		} else {
+			fmt.Fprintf(&b, "\t%s %s\n", f.name, f.typ)
+		}
+	}
+	b.WriteString("}\n\n// +gengo:partialstruct\n")
+	for _, k := range sorted(keys(lo.omit)) {
+		fmt.Fprintf(&b, "// +gengo:partialstruct:omit=%s\n", k)
+	}
+	b.WriteString("type accountView Account\n")
+	return b.String()
+}
+
+func (lo *localOrigin) testFile() string {
+	var b strings.Builder
+	b.WriteString("package localpart\n\nimport (\n\t\"errors\"\n\t\"fmt\"\n\t\"reflect\"\n\t\"testing\"\n\t\"time\"\n)\n\nvar _ = errors.New\nvar _ time.Time\nvar c18owner = \"root\"\n\n")
+	b.WriteString("func TestC18Local(t *testing.T) {\n\tdefer fmt.Println(\"C18LOCALDONE\")\n")
+	fmt.Fprintf(&b, "\tomit := %s\n", setLit(lo.omit))
+	b.WriteString(`	rt, ot := reflect.TypeOf(AccountView{}), reflect.TypeOf(Account{})
+	var want []reflect.StructField
+	for i := 0; i < ot.NumField(); i++ {
+		if f := ot.Field(i); !omit[f.Name] {
+			want = append(want, f)
+		}
+	}
+	if rt.NumField() != len(want) {
+		fmt.Printf("C18LOCALMISMATCH field-set generated struct has %d fields, want %d\n", rt.NumField(), len(want))
+		return
+	}
+	for i, w := range want {
+		g := rt.Field(i)
+		if g.Name != w.Name || g.Type != w.Type || g.Tag != w.Tag || g.PkgPath != w.PkgPath {
+			fmt.Printf("C18LOCALMISMATCH field-set field %d: got %s %s %q, want %s %s %q\n", i, g.Name, g.Type, g.Tag, w.Name, w.Type, w.Tag)
+			return
+		}
+	}
+	if (*AccountView)(nil).DeepCopyAs() != nil {
+		fmt.Printf("C18LOCALMISMATCH nil DeepCopyAs on nil did not return nil\n")
+		return
+	}
+`)
+	b.WriteString("\tsrc := &AccountView{\n")
+	for _, f := range lo.fields {
+		if !lo.omit[f.name] {
+			fmt.Fprintf(&b, "\t\t%s: %s,\n", f.name, f.val)
+		}
+	}
+	b.WriteString("\t}\n\tgot := src.DeepCopyAs()\n\texpect := &Account{\n")
+	for _, f := range lo.fields {
+		if !lo.omit[f.name] {
+			fmt.Fprintf(&b, "\t\t%s: src.%s,\n", f.name, f.name)
+		}
+	}
+	b.WriteString("\t}\n\tif !reflect.DeepEqual(got, expect) {\n\t\tfmt.Printf(\"C18LOCALMISMATCH values retained fields are not carried over: got %+v want %+v\\n\", *got, *expect)\n\t}\n}\n")
+	return b.String()
+}
+
 var mismatchRe = regexp.MustCompile(`C18MISMATCH (\d+) (.*)`)
 
 func (p *prop) runBatch(c core.Case, w *core.Worker, res *core.Result, r *rand.Rand, n int) {
@@ -519,11 +632,33 @@ func (p *prop) runBatch(c core.Case, w *core.Worker, res *core.Result, r *rand.R
 		entries = append(entries, "./"+name)
 	}
 	m.MustWrite("origin/origin.go", osrc.String())
+	lo := genLocalOrigin(r)
+	m.MustWrite("localpart/types.go", lo.source())
+	entries = append(entries, "./localpart")
 	run := specgen.RunInProcess(m.Root, specgen.Args{Entrypoint: entries, OutputFileBaseName: "zz_generated"}, []specgen.GenSpec{{Name: "partialstruct", Real: true}})
 	res.Inc("gengo_runs")
 	if run.Failed {
 		res.Fail("execute", execKey(run.Err+run.Panic), "Execute(partialstruct) failed on well-formed declarations: "+clip(run.Err+run.Panic, 1500)+"\n--- origins:\n"+clip(osrc.String(), 2500), nil)
 		return
+	}
+	{
+		// the origin declared in the SAME package as the partial type, with unexported fields among the retained ones
+		m.MustWrite("localpart/c18_test.go", lo.testFile())
+		cmd := exec.Command("go", "test", "-v", "-count=1", "-vet=off", "-run", "TestC18Local", "./localpart")
+		cmd.Dir = m.Root
+		cmd.Env = append(os.Environ(), "GOFLAGS=-mod=mod")
+		ob, err := cmd.CombinedOutput()
+		out := string(ob)
+		res.Inc("compiled_test_programs")
+		res.Inc("same_package_origins")
+		res.Evals++
+		res.NonTrivial("local|" + lo.source())
+		gen, _ := m.Read("localpart/zz_generated.partialstruct.go")
+		if !strings.Contains(out, "C18LOCALDONE") {
+			res.Fail("compiles-and-runs", "local origin: "+compileKey(out), fmt.Sprintf("package localpart (origin in the same package): the generated code does not compile / the test did not finish (%v):\n%s\n--- declarations:\n%s\n--- generated (head):\n%s", err, clip(out, 1500), clip(lo.source(), 1500), clip(gen, 1500)), nil)
+		} else if mm := localMismatchRe.FindStringSubmatch(out); mm != nil {
+			res.Fail("local-origin", mm[1], fmt.Sprintf("package localpart (origin in the same package, unexported fields): %s\n--- declarations:\n%s\n--- generated (head):\n%s", mm[2], clip(lo.source(), 1500), clip(gen, 1500)), nil)
+		}
 	}
 	for _, pkk := range pks {
 		m.MustWrite(filepath.Join(pkk.name, "c18_test.go"), testFile(pkk.name, pkk.ps))
